@@ -99,12 +99,12 @@ EXPORT errno_t _strpbrk_s_chk(char *dest, rsize_t dmax, char *src, rsize_t slen,
         CHK_DEST_OVR("strpbrk_s", destbos)
     }
 
+    if (unlikely(slen > RSIZE_MAX_STR)) {
+        invoke_safe_str_constraint_handler("strpbrk_s: slen exceeds max",
+                                           (void *)src, ESLEMAX);
+        return RCNEGATE(ESLEMAX);
+    }
     if (srcbos == BOS_UNKNOWN) {
-        if (unlikely(slen > RSIZE_MAX_STR)) {
-            invoke_safe_str_constraint_handler("strpbrk_s: slen exceeds dmax",
-                                               (void *)src, ESLEMAX);
-            return RCNEGATE(ESLEMAX);
-        }
         BND_CHK_PTR_BOUNDS(src, slen);
     } else {
         if (unlikely(slen > srcbos)) {
